@@ -55,3 +55,7 @@ VARIANTS += [
                                                     E(PC, "def discover_df(df, inc_rex=False, df_path=None):", "def load_constraints_for_df(constraints_path):\n    if isinstance(constraints_path, dict):\n        constraints = DatasetConstraints()\n        constraints.initialize_from_dict(native_definite(constraints_path))\n    else:\n        constraints = DatasetConstraints(loadpath=constraints_path)\n    return constraints\n\n\ndef discover_df(df, inc_rex=False, df_path=None):")],
       kind='refactor'),
 ]
+
+VARIANTS += [
+    M('C06', 'record-level-tolerance-proportional-to-the-limit', E(PC, "    return (a >= b) | (a >= fuzz_down(b, epsilon))", "    return (a >= b) | (a >= b - b * epsilon)"), rule='C06-AGREE', key='df_fuzzy_gt'),
+]
